@@ -27,6 +27,9 @@ NCPU = os.cpu_count() or 4
 TLC_CP = '/opt/veriftools/tla/tla2tools.jar:/opt/veriftools/tla/CommunityModules-deps.jar'
 
 
+HARNESS_ERROR = '__harness_error__'
+
+
 class MachineryError(Exception):
   """Something in the verification machinery itself failed (exit 2, never a verdict)."""
 
@@ -194,6 +197,7 @@ class Ctx:
     self.samples: list = []
     self.violations: list = []   # (signature, detail, replay_path)
     self.known_hits: list = []
+    self.harness_errors: list = []
     self.drift: dict = {}        # internal sub-term differs from the spec although the property holds
     self.assumptions: list[str] = []
     self.notes: dict = {}
@@ -250,6 +254,9 @@ class Ctx:
 
   def mismatch(self, kind: str, case: Any, signature: str, detail: str, extra: Any = None):
     """Records a spec/code disagreement. Known findings are reported but do not fail."""
+    if signature.startswith(HARNESS_ERROR):
+      self.harness_errors.append(detail)     # the machinery failed on this case: never a verdict about the code
+      return
     for k in self._known:
       if re.fullmatch(k['signature'], signature):
         hit = (k['signature'], k['what'])
@@ -301,6 +308,11 @@ class Ctx:
     for sig, d in sorted(self.drift.items()):
       print(f'NOTE: {self.prop} sub-term {sig} differs from the specification in {d["n"]} case(s) although the property-level '
             f'comparisons of those cases pass (the code was restructured; not a violation): {d["example"][:200]}')
+    if self.harness_errors:
+      print(f'NOTE: {self.prop}: the replay harness itself failed on {len(self.harness_errors)} case(s) (not a verdict about the code): '
+            f'{self.harness_errors[0][:600]}', file=sys.stderr)
+      if not self.violations:
+        raise MachineryError(f'replay harness failed on {len(self.harness_errors)} case(s): {self.harness_errors[0][:1500]}')
     if self.violations:
       seen = set()
       for sig, detail, path in self.violations:
@@ -414,6 +426,11 @@ def per_case(one: Callable[[Any], list], kind: str = '') -> Callable[[list], lis
     except MachineryError:
       raise
     except Exception as ex:   # pylint: disable=broad-except
+      if not library_raised(ex) and os.environ.get('VERIF_STRICT_EXC', '1') == '1':
+        # raised by the harness itself (or by numpy/jax called directly from the harness), not by the library:
+        # a defect of the machinery, never a verdict about the code
+        return [{'case': c, 'sig': HARNESS_ERROR,
+                 'detail': f'replay harness raised {type(ex).__name__}: {str(ex)[:300]} | ' + ' / '.join(traceback.format_exc().splitlines()[-8:])[:1200]}]
       tb = traceback.format_exc().splitlines()
       return [{'case': c, 'sig': f'{kind}:exception:{type(ex).__name__}',
                'detail': f'code raised {type(ex).__name__}: {str(ex)[:300]} | ' + ' / '.join(tb[-6:])[:600]}]
@@ -442,7 +459,7 @@ def settle(out: list, is_property: Callable[[str], bool]) -> list:
   """Per-case policy: a mismatch of an *internal* sub-term (which method computes which part) is a
   violation only if the same case also fails a property-level comparison; otherwise the property
   holds on this case and the mismatch is downgraded to drift (reported, exit status unaffected)."""
-  real = [m for m in out if m.get('sig') != '__stat__']
+  real = [m for m in out if m.get('sig') != '__stat__' and not str(m.get('sig')).startswith(HARNESS_ERROR)]
   if any(is_property(m['sig']) for m in real):
     return out
   for m in real:
